@@ -630,6 +630,83 @@ def prod_range(ex, state, lst, a, b, line):
     return P(a, b)
 
 
+def int_elem(ex, state, lst, j, line):
+    """element j of a list used as a shape: an integer (a slot that may still hold None is obliged to be filled)"""
+    v = lst_get_(lst, j)
+    if isinstance(v, SOpt):
+        ex.ctx.oblige(state, 'shape-entry-is-an-integer', line, v.defined, 'a shape entry is None')
+        v = v.val
+    if is_conc_int(v) or isinstance(v, z3.ArithRef):
+        return zi(v)
+    raise Unsupported('shape list with entries of type %s at line %d' % (type(v).__name__, line))
+
+
+def interleave_view(lst):
+    """(A, B) if the list was completely written by  lst[0::2] = A; lst[1::2] = B  (in either order)"""
+    ws = lst.__dict__.get('stride_writes') or []
+    if len(ws) == 2 and all(w[1] == 2 for w in ws) and {w[0] for w in ws} == {0, 1}:
+        d = {w[0]: w[2] for w in ws}
+        return d[0], d[1]
+    return None
+
+
+def reshape_to_symbolic_rank(ex, state, a, shape, line):
+    """a.reshape(shape) with a shape list of symbolic length: an array of symbolic rank.  NumPy requires non-negative entries
+    whose product is the size of the array; the product of the list is the uninterpreted slice product of the list value
+    (prod_fun) with its unfolding instances - and, for a list interleaved from two lists, lemma L-prod-interleave:
+    prod(p) = prod(p[0::2]) * prod(p[1::2])  (assumed; needs induction over the length)."""
+    from vt.e1.symexec import FA
+    a = npmodel.need_rank(ex, state, a, line)
+    shp = shape.snapshot()
+    shp.to_fn()
+    n = zi(shp.len_term())
+    j = fresh('j')
+    sub = state.clone()
+    sub.assume(z3.And(j >= 0, j < n))
+    e = int_elem(ex, sub, shp, j, line)
+    ex.ctx.oblige(sub, 'reshape-nonneg', line, e >= 0)
+    clean = SList(state.alloc(), n, fn=lambda q, e=e, j=j: z3.substitute(e, (j, zi(q))), kind='int')
+    P = prod_fun(clean)
+    for ax in prod_instance(clean, 0, n):
+        state.assume(ax, model=True)
+    cn = as_conc(n)
+    if cn is not None and cn <= 16:
+        for k in range(1, cn):
+            for ax in prod_instance(clean, 0, k):       # a list of known length: the definition is unfolded completely
+                state.assume(ax, model=True)
+    iv = interleave_view(shape)
+    if iv is not None:
+        A, B = iv
+        la, lb = zi(A.len_term()), zi(B.len_term())
+        state.assume(z3.Implies(z3.And(la == lb, n == 2 * la), P(0, n) == prod_fun(A)(0, la) * prod_fun(B)(0, lb)), model=True)      # L-prod-interleave
+    ex.ctx.oblige(state, 'reshape-size', line, npmodel.prod(a.shape) == P(0, n), 'cannot reshape array into the requested shape')
+    u, fb = fresh('rv', 'bool'), state.alloc()
+    buf = z3.If(a.contig, a.buf, z3.If(u, a.buf, fb))
+    r = SArrN(npmodel.prod(a.shape), n, a.cplx, buf, clean)
+    r.contig = a.contig
+    return r
+
+
+def transpose_symbolic_rank(ex, state, a0, axes, line, check_permutation):
+    """transpose of an array of symbolic rank: NumPy requires as many axes as the array has, each in range, none repeated.
+    The result is a view whose shape list is the permuted one."""
+    from vt.e1.symexec import FA
+    ax = axes.snapshot()
+    ax.to_fn()
+    n = zi(ax.len_term())
+    g = lambda j: zi(lst_get_(ax, j))       # noqa
+    ex.ctx.oblige(state, 'transpose-axes', line, z3.And(n == a0.ndim, FA(0, n, lambda j: z3.And(g(j) >= 0, g(j) < a0.ndim))), "axes don't match array")
+    if check_permutation:
+        ex.ctx.oblige(state, 'transpose-axes-distinct', line, FA(0, n, lambda j: FA(0, n, lambda k: z3.Implies(j != k, g(j) != g(k)))), 'repeated axis in transpose')
+    shp = None
+    if a0.shape is not None:
+        src = a0.shape
+        shp = SList(state.alloc(), n, fn=lambda j, src=src: zi(lst_get_(src, g(j))), kind='int')
+    r = SArrN(a0.size, a0.ndim, a0.cplx, a0.buf, shp)
+    r.transposed_by = ax
+    return r
+
+
 def qr_rq(ex, state, name, a, kw, line):
     if kw.get('mode') != 'economic':
         raise Unsupported('%s without mode=economic at line %d' % (name, line))
@@ -705,6 +782,8 @@ def method(ex, state, obj, name, args, kw, line, node):
             return c
         raise Unsupported('list.%s at line %d' % (name, line))
     if isinstance(obj, SArr):
+        if name == 'reshape' and len(args) == 1 and isinstance(args[0], SList) and args[0].items is None:
+            return reshape_to_symbolic_rank(ex, state, obj, args[0], line)
         if name == 'reshape':
             return npmodel.reshape(ex, state, obj, shape_arg(args), line)
         if name == 'transpose':
@@ -738,6 +817,8 @@ def method(ex, state, obj, name, args, kw, line, node):
     if isinstance(obj, SArrN):
         if name == 'copy':
             return SArrN(obj.size, obj.ndim, obj.cplx, state.alloc(), obj.shape)
+        if name == 'transpose' and len(args) == 1 and isinstance(args[0], SList):
+            return transpose_symbolic_rank(ex, state, obj, args[0], line, check_permutation=True)
         raise Unsupported('method %s of an array of symbolic rank at line %d' % (name, line))
     if is_tag(obj, 'squeezed'):
         if name == 'reshape':
